@@ -886,6 +886,11 @@ Definition lits_state_channel_parseModes : list lit :=
    LInt (1);
    LInt (0);
    LStr [67; 104; 97; 110; 110; 101; 108; 46; 80; 97; 114; 115; 101; 77; 111; 100; 101; 115; 40; 41; 58; 32; 110; 111; 116; 32; 101; 110; 111; 117; 103; 104; 32; 97; 114; 103; 117; 109; 101; 110; 116; 115; 32; 116; 111; 32; 112; 114; 111; 99; 101; 115; 115; 32; 77; 79; 68; 69; 32; 37; 115; 32; 37; 115; 37; 99]%N;
+   LInt (98);
+   LInt (101);
+   LInt (73);
+   LInt (0);
+   LInt (1);
    LInt (113);
    LInt (97);
    LInt (111);
